@@ -393,7 +393,7 @@ func (e *Env) GenOp(t *rapid.T) Op {
 		o := genOpts(t, e, e.Cfg, m.Mono, e.P)
 		return Op{Kind: "reopen", Opts: &o, RmIdx: e.genRmIdx(t)}
 	case "gc":
-		return Op{Kind: "gc", N: int64(pick(t, []int{0, 0, 1000}, "gc_hours"))}
+		return Op{Kind: "gc", N: int64(pick(t, []int{0, 0, 1000, -1, -200}, "gc_hours"))}
 	case "sync":
 		return Op{Kind: "sync"}
 	case "trim":
